@@ -195,6 +195,27 @@ Section Runs.
       apply (manage_ok cfg is_user _ _ o pre HIa Hwf).
     Qed.
 
+    Lemma part_issued : all_events (issued_event cfg) tr.
+    Proof.
+      intros pre e post E.
+      destruct (at_event [] [] ops pre e post (inv_init is_user) Hgood E) as (a & o & b & _ & _ & -> & _ & _ & HIa & Hwf & HI1 & _).
+      intros u f s q n Hr Hout. unfold Steps.ev in Hr, Hout |- *. cbn [e_op e_out e_post] in Hr, Hout |- *.
+      destruct (request_result cfg is_user _ _ o u f s q n HIa Hwf Hr Hout) as (t & c & Ht & Hne & Htu & Hu & _).
+      destruct (request_issued cfg is_user _ _ o u f s q n HIa Hwf Hr Hout) as (Hf & Hs & Hq & Hin).
+      split; [exact Hf|]. split; [apply same_q_normo; exact Hs|]. split; [apply same_q_normo; exact Hq|].
+      exists t. split; [exact Ht|]. split; [|exact Hin].
+      apply (has_lookup is_user _ _ u t HI1 Hu). exists (code n). split; [exact Hin|].
+      apply (ctext_code_some n t Ht Hne).
+    Qed.
+
+    Lemma part_findlocal : all_events findlocal_event tr.
+    Proof.
+      intros pre e post E.
+      destruct (at_event [] [] ops pre e post (inv_init is_user) Hgood E) as (a & o & b & _ & _ & -> & _).
+      intros m Eo. unfold Steps.ev in Eo |- *. cbn [e_op e_out e_pre] in Eo |- *. subst o.
+      cbn [Model.step snd]. unfold find_local_id. reflexivity.
+    Qed.
+
     (* the situation at an ordered pair of events: ei asks for an identifier and gets ni *)
     Lemma at_pair pre ei mid ej post u f s q ni :
       tr = (pre ++ ei :: mid ++ ej :: post)%list ->
@@ -282,10 +303,10 @@ Section Runs.
     Theorem parts_hold :
       all_pairs (stable_pair cfg) tr /\ all_pairs (distinct_pair cfg) tr /\ all_pairs (reverse_pair cfg) tr
       /\ all_events (valued_event cfg) tr /\ all_events (transient_event cfg) tr /\ all_events manage_event tr
-      /\ all_events (consistent_event is_user) tr.
+      /\ all_events (consistent_event is_user) tr /\ all_events (issued_event cfg) tr /\ all_events findlocal_event tr.
     Proof.
       exact (conj part_stable (conj part_distinct (conj part_reverse (conj part_valued
-               (conj part_transient (conj part_manage part_consistent)))))).
+               (conj part_transient (conj part_manage (conj part_consistent (conj part_issued part_findlocal)))))))).
     Qed.
   End Parts.
 
@@ -318,6 +339,10 @@ Section Named.
   Lemma manage_local : all_events manage_event tr.
   Proof. apply Hall. Qed.
   Lemma reachable_consistent : all_events (consistent_event is_user) tr.
+  Proof. apply Hall. Qed.
+  Lemma issued_is_stored : all_events (issued_event cfg) tr.
+  Proof. apply Hall. Qed.
+  Lemma findlocal_is_store : all_events findlocal_event tr.
   Proof. apply Hall. Qed.
 End Named.
 
@@ -420,6 +445,32 @@ Example class23_repaired :
   map e_out (skipn 3 (mtrace ex_cfg [] ex_class2)) = [ONid (mkN ex_nq ex_sp (Some NF_PERSISTENT) (Some "x") (Some "id-1"))]
   /\ map e_out (skipn 2 (mtrace ex_cfg0 [] ex_class3)) = [ONid (mkN None None (Some NF_PERSISTENT) (Some "x") (Some "id-1"))].
 Proof. split; vm_compute; reflexivity. Qed.
+
+(* (strengthening round 2) the two new parts say something the former seven do not: an observed trace in
+   which an instance-level memo of persistent_nameid hands out an identifier again after it was removed
+   (issued with the empty qualifier "", removed in the form the store returns it: qualifier absent)
+   satisfies wf and the seven former parts and fails exactly "issued = stored"; a stale reverse lookup after
+   the removal fails exactly "reverse lookup = store" *)
+Definition ex_n1 : nameid := mkN (Some "") ex_sp (Some NF_PERSISTENT) None (Some "id-1").
+Definition ex_n1_stored : nameid := mkN None ex_sp (Some NF_PERSISTENT) None (Some "id-1").
+Definition ex_stale : trace :=
+  (mtrace ex_cfg [] [Persistent "alice" ex_sp (Some "") "id-1"; RemoveRemote ex_n1_stored]
+   ++ [ {| e_op := Persistent "alice" ex_sp (Some "") "id-1"; e_out := ONid ex_n1; e_pre := []; e_post := [] |} ])%list.
+Definition ex_stale_rev : trace :=
+  (mtrace ex_cfg [] [Persistent "alice" ex_sp (Some "") "id-1"; RemoveRemote ex_n1_stored]
+   ++ [ {| e_op := FindLocal ex_n1; e_out := OStr "alice"; e_pre := []; e_post := [] |} ])%list.
+
+Lemma new_parts_independent :
+  (wf ex_cfg ex_user ex_stale
+   /\ ident_spec_parts_b ex_cfg ex_user ex_stale = [true; true; true; true; true; true; true; false; true]
+   /\ ~ ident_spec ex_cfg ex_user ex_stale)
+  /\ (wf ex_cfg ex_user ex_stale_rev
+      /\ ident_spec_parts_b ex_cfg ex_user ex_stale_rev = [true; true; true; true; true; true; true; true; false]
+      /\ ~ ident_spec ex_cfg ex_user ex_stale_rev).
+Proof.
+  split; (split; [apply wf_b_iff; vm_compute; reflexivity|]); (split; [vm_compute; reflexivity|]);
+    intros H; apply ident_spec_b_iff in H; vm_compute in H; discriminate.
+Qed.
 
 (* ------------------------------------------------------------------ encoding *)
 Theorem codec_holds l : codec_spec (map (fun n => (n, code n, decode (code n))) l).
